@@ -25,7 +25,8 @@ RULE = ("uploads: body size {0,1,16383,16384,16385,65535,65536,100k,1M(,5M)} x b
         "mixed} x server INITIAL_WINDOW_SIZE {1,100,16384,65535,1M} x MAX_FRAME_SIZE {16384,65536,2^24-1} x credit policy "
         "{auto, drip:1, drip:1000, stream-first, conn-first, late, big-once, dep = the first stream's credit is withheld until "
         "the other concurrent uploads have arrived} x 1-3 uploads sharing the connection window x "
-        "flavour (bounded to <= 6000 DATA frames per transfer); downloads {0,1,65535,1M,17M(,40M)}; 1100 x 16384-byte responses "
+        "flavour (bounded to <= 6000 DATA frames per transfer); downloads {0,1,65535,1M,17M(,40M)} and padded ones (pad 0/7/255; 70,000 one-byte frames with 255 bytes of padding "
+        "exceed the client's whole credit); 1100 x 16384-byte responses "
         "on one connection (each ending with a data-carrying END_STREAM frame; 18 MB > the 16 MiB credit); distinct+non-trivial = "
         "parameter tuple in which a window actually closed (ledger minimum <= 0) or the download exceeded the initial credit")
 ASSUMPTIONS = ["window accounting per RFC 9113 6.9 with the most permissive of old/new INITIAL_WINDOW_SIZE / MAX_FRAME_SIZE until "
@@ -144,7 +145,7 @@ async def run_download(flavor, p, cnt, v, sigs):
         return Resp(200, b"OK", [(b"X-Echo", req.token or b"-")], body)
 
     origin = endpoints.Origin(net, "o.test", 443, tls=True, alpn=["h2"], responder=responder,
-                              h2_script={"settings": {SC_MCS: 100}, "data_chunk": p["data_chunk"]})
+                              h2_script={"settings": {SC_MCS: 100}, "data_chunk": p["data_chunk"], "pad": p.get("pad")})
     pool = mk_pool(flavor, net, http2=True, max_connections=1)
     api = API(flavor, pool, net)
     total = {"n": 0, "ok": True}
@@ -174,7 +175,9 @@ async def run_download(flavor, p, cnt, v, sigs):
     ctx = {"params": p, "flavor": flavor}
     if size > 2 ** 24:
         cnt["downloads_beyond_credit"] += 1
-    sigs.add(f"down|{size}|{p['data_chunk']}|{flavor}")
+    sigs.add(f"down|{size}|{p['data_chunk']}|pad{p.get('pad')}|{flavor}")
+    if p.get("pad") is not None:
+        cnt["padded_downloads"] = cnt.get("padded_downloads", 0) + 1
     if out.kind == "hang":
         v("download-stalled", f"download of {size} bytes stalled after {total['n']} bytes (flow-control credit not returned?)", ctx)
     elif out.kind != "ok":
@@ -285,9 +288,14 @@ def plan(tier, seed):
     for size in downs:
         for dc in ([16384] if size > 2 ** 20 else [1, 16384] if size <= 65535 else [16384, 4000]):
             params.append({"dir": "down", "size": size, "data_chunk": dc})
+    # padded DATA frames: the padding counts against both windows (RFC 9113 6.1), so credit must be returned for it too;
+    # 70,000 one-byte frames with 255 bytes of padding each consume more than the client's whole 16 MiB + 65,535 credit
+    params.append({"dir": "down", "size": 1000, "data_chunk": 100, "pad": 7})
+    params.append({"dir": "down", "size": 200_000, "data_chunk": 1000, "pad": 0})
+    padded_big = [{"dir": "down", "size": 70_000, "data_chunk": 1, "pad": 255}]
     cases = []
     flavors = ["asyncio", "trio", "sync"]
-    big = [p for p in params if p["dir"] == "down" and p["size"] > 2 ** 20]
+    big = [p for p in params if p["dir"] == "down" and p["size"] > 2 ** 20] + padded_big
     rest = [p for p in params if p not in big]
     n_cases = 45
     for i in range(n_cases):
